@@ -20,7 +20,11 @@ use vkit::script::{Hint, ScriptIter};
 use vkit::typenum::{self, U};
 use vkit::{ledger, Args, Caught, Elem, Stats, Tok, ZTok};
 
-#[global_allocator]
+// Under Miri the interpreter's own Rust-heap checks (zero-size requests, layout on
+// dealloc, leaks) are stricter than the recorder, which forwards to the C heap; so the
+// recorder is installed for native / sanitizer builds only (windows are then empty).
+#[cfg_attr(not(miri), global_allocator)]
+#[allow(dead_code)]
 static GLOBAL: Recorder = Recorder;
 
 type GA<E, N> = GenericArray<E, N>;
